@@ -71,6 +71,10 @@ EXPLANATION += (
     ' Round 13: pointer windows are re-based when copied (R-SAMEVAL/pointer-window-rebased).'
 )
 
+EXPLANATION += (
+    ' Round 14: contiguity shortcuts decided from end points and length apply to sorted, distinct sequences only (R-ARITH/span-contiguity).'
+)
+
 RULE_TEXT = (
     "one obligation per step / chunk-extent site, per range relation of "
     "the dispatch loop, per piece-list mutation, per dispatcher x member")
@@ -117,6 +121,10 @@ def check(ctx):
            'flow', nontrivial=n_h5 > 0)
     from .C05 import sweep_generic_rules
     sweep_generic_rules(ctx, ANCHOR_MODULES)
+    # the matrix is preserved for every worker count: no worker count is
+    # singled out for a code path of its own (rule of C04)
+    from .C04 import check_worker_count_special_cases
+    check_worker_count_special_cases(ctx)
 
 
 def check_parallel_pieces(ctx):
